@@ -506,9 +506,21 @@ StructInv(s) ==
           /\ (nd.rel = -1 => Len(nd.tbls) <= 1)
           /\ nd.rel = RelOfMask(s, nd.mask)
           /\ nd.active = (nd.tbls # <<>>)
-          /\ \A t \in DOMAIN nd.tbls :      \* an alive target of an active table is flagged
-                (nd.tbls[t].active /\ nd.tbls[t].tgt # LZero /\ LAlive(s, nd.tbls[t].tgt)) => nd.tbls[t].tgt[1] \in s.tflag
+          /\ \A t \in DOMAIN nd.tbls :      \* an alive target of a populated table is flagged
+                (nd.tbls[t].active /\ nd.tbls[t].rows # <<>> /\ nd.tbls[t].tgt # LZero /\ LAlive(s, nd.tbls[t].tgt))
+                    => nd.tbls[t].tgt[1] \in s.tflag
     /\ \A n1, n2 \in DOMAIN s.nodes : n1 # n2 => s.nodes[n1].mask # s.nodes[n2].mask
+
+(* The stronger form - an alive target of ANY active table is flagged, so that the table is retired when the target   *)
+(* dies - holds as long as every creation call names a relation component that is in its component list.  A call like *)
+(* NewBuilder(w, B).WithRelation(A).New(t) with two relation components A, B is rejected only AFTER the table (B, t)   *)
+(* has been created (newEntityTarget: findOrCreateArchetype, then checkRelation), and the flag is set after the check: *)
+(* the empty table stays, unflagged, and is not retired with t.  Nothing observable depends on it (an empty table of a *)
+(* dead target selects nothing), so this is modelled as it is and FlagInv is only claimed for one relation component. *)
+FlagInv(s) ==
+    \A n \in DOMAIN s.nodes : \A t \in DOMAIN s.nodes[n].tbls :
+        LET tb == s.nodes[n].tbls[t] IN
+        (tb.active /\ tb.tgt # LZero /\ LAlive(s, tb.tgt)) => tb.tgt[1] \in s.tflag
 
 (* Cache: every entry lists exactly the active tables its filter selects (non-relation tables of relation  *)
 (* filters excepted, known finding E17), each once; the index, when built, is exact.                        *)
